@@ -47,3 +47,13 @@ C['C14'] = dict(
  text="Every builtin is applied to every value shape with 0-3 arguments, in conversion chains, and print to every format of up to four pieces with 0-4 arguments; each run of the real interpreter is validated against the documented result (or the admissible error kinds). number -> text -> number is checked as a law on all lattice integers and on random finite floats of every magnitude.",
  ref="DESIGN.md 5 C14",
  note="Trusted: TLC, the recorder, rustc's float parsing/printing as ground truth inside the round-trip laws. Text -> float beyond plain exact decimals is DontKnow (U9).")
+C['C07'] = dict(
+ tech="TLA+ grammar spec (NlGrammar: precedence table, Unparse, tree families) - TLC enumerates the trees and prints tree + printed form; the real parser parses each form under several layouts; TLC checks the parsed tree against the printed tree (TV_Parse)",
+ text="TLC enumerates every ordered pair of the 13 binary operators in both nestings, prefix/call/index/assignment against every operator, op-assignment and else-if shapes, and operator triples in all five shapes; each tree is printed by the specification with the parentheses the precedence table requires, rendered under layouts (all eleven white-space code points, comments, redundant parentheses, dropped optional semicolons, no separator where maximal munch allows), parsed by the real parser, and TLC checks that exactly the printed tree comes back. Random statement-level trees are added.",
+ ref="DESIGN.md 5 C07",
+ note="Trusted: TLC, the layout renderer (harness/src/parsefam.rs), the tree export hook. The printed form is parenthesised conservatively around prefix operators, assignments and block expressions (the parser lets them swallow what follows).")
+C['C08'] = dict(
+ tech="TLA+ lexer spec (NlLexer: functional maximal-munch lexer and escape Decode/Encode) checked by TLC against the real lexer's token stream and the real parser's decoded literals (TV_Lex); Decode(Encode(s)) = s checked exhaustively on short strings",
+ text="For every input (complete enumeration of single tokens, token pairs x separator choices, illegal characters, all string contents up to length 4 and raw literal bodies up to length 3 over an escape alphabet; random sequences beyond) TLC runs the specification's lexer on the recorded characters and compares kind, spelling and end position of every token with the real lexer's, requires that a legal text is read to its end and that an illegal one is rejected (nothing silently dropped), and that every string literal in the parser's tree equals Decode of its raw spelling.",
+ ref="DESIGN.md 5 C08",
+ note="Trusted: TLC, the recorder (Unicode classes of non-ASCII code points from Rust's char predicates; Debug rendering of tokens).")
